@@ -275,3 +275,22 @@ ENGINES += [
 ]
 
 NOT_APPLICABLE = {}
+
+# Dimensions added after the second round of seeded changes (DESIGN.md section 12)
+EXTRA_TEXT = {
+    "C01": "A quarter of the streaming cases carry a flush script (several Blocks, sync-flushed chunks, lc/lp/pb updates), 1 case in 25 a configuration just outside the documented domain (refused, or everything must hold); thorough adds 20 real long-haul streams of more than 4 GiB piped encoder->decoder->regenerated input without the hook.",
+    "C02": "Flush scripts, lc/lp/pb updates and outside-domain configurations as in C01.",
+    "C03": "LZMA1 chains are decoded under every valid way of marking their end (LZMA1 / LZMA1EXT with size known or unknown x ALLOW_EOPM); a fifth of the cases run on a reused handle whose first life decoded the original or a contrast file, whole or abandoned.",
+    "C04": "A fifth of the cases run on a reused handle (first life: original or contrast file, whole or abandoned, optionally with one allocation failure; the limit given at init is read back); crafted Index fields carry Record counts at the edge of size arithmetic.",
+    "C05": "A quarter of the base files hold stored (incompressible) plaintext of every length residue mod 64 under CRC32/CRC64/SHA-256, so every plaintext bit is flipped under every check.",
+    "C06": "A third of the encoder cases carry a flush script (same actions at the same offsets in every run, only the slicing differs).",
+    "C07": "Lifecycles: early lzma_end, second life of the handle (re-init without lzma_end, other threads / threading limit) and output space that exactly fits and is never enlarged.",
+    "C08": "Lifecycles: early end, re-init with the same / another thread count, and an allocation failure (usually inside a worker) that must surface as LZMA_MEM_ERROR without blocking or leaking.",
+    "C10": "For index operations 'unchanged' also means: same digest as an untouched twin after a fixed continuation (other Stream Flags, padding, three appends).",
+    "C12": "One more lzma_filters_update (whole chain or lc/lp/pb) is attempted at an arbitrary lzma_code call boundary under 1-3 byte output, also while a header is being copied out: accepted or refused, everything still has to decode.",
+    "C13": "Decoded indexes join the operation history (a third), file-info results take further appends, files may contain Block-less Streams; xz --list --robot -vv figures are compared with an independent parser, including Stream Padding around the 8 KiB read window and Streams of thousands of Blocks.",
+    "C16": "A fifth of the cases run on a reused handle whose first life decoded the file before variation or a contrast file with other header bits.",
+    "C18": "12% of the inputs are valid files whose compressed size is a multiple of the 8 KiB read buffer +- delta."
+}
+for _k, _v in EXTRA_TEXT.items():
+    CHECKS[_k]["text"] = CHECKS[_k]["text"] + " " + _v
